@@ -1,10 +1,174 @@
-(* C03 -- Steps run to completion in documented order and the trace tells the truth (trace-truth part; order theorems: see below when present).
+(* C03 -- Steps run to completion in documented order and the trace tells the truth.
    Property theorems only: every statement below is the statement of a lemma proved in proofs/,
    printed by Coq and closed by `exact`. *)
-From Coq Require Import List ZArith.
+From Coq Require Import List ZArith String.
 From Sismic Require Import Base Chart Interp World Spec.
-From SismicProofs Require Import TraceProofs.
+From SismicProofs Require Import TraceProofs C03Proofs.
 Import ListNotations.
+Open Scope string_scope.
+
+(* ATOMIC. In a macro step every fired transition is one micro step (exits, action, entries as computed by create_step from the configuration at the start of the macro step) followed by stabilisation micro steps (no transition, no event) until NOTHING remains to be entered by default, and only then the next transition starts; the transitions are those selected, in the order of sort_transitions; when nothing fires but an event is consumed the macro step is that single event step *)
+Theorem C03_atomic_thm :
+  forall (ctx X : Type) (exec_code : call ctx -> ctx -> option (ctx * list event))
+           (eval_code : call ctx -> ctx -> option bool) (emit : Z -> meta -> X -> X * option err) 
+           (sc : chart) (fuel : nat) (now : Z) (s s' : mstate ctx X) (t : Z) (steps : list microstep),
+         i_initialized (m_i s) = true ->
+         execute_once ctx X exec_code eval_code emit sc fuel now s = (s', inl (Some (t, steps))) ->
+         exists (s0 s1 s2 s3 : mstate ctx X) (sel : list itrans),
+           let ev := select_event (m_i s0) in
+           let cfg := i_config (m_i s) in
+           m_i s0 = set_sent ctx [] (set_time ctx now (m_i s)) /\
+           select_transitions ctx X eval_code sc ev cfg s0 = (s1, inl sel) /\
+           i_config (m_i s2) = cfg /\
+           i_memory (m_i s2) = i_memory (m_i s) /\
+           m_i s' = m_i s3 /\
+           create_stabilization_step ctx sc (m_i s') = None /\
+           (sel = [] /\
+            (exists e : event,
+               ev = Some e /\
+               blocks_run ctx X exec_code eval_code emit sc s2
+                 [{| ms_event := Some e; ms_trans := None; ms_entered := []; ms_exited := []; ms_sent := [] |}]
+                 steps s3) \/
+            sel <> [] /\
+            (exists ts : list itrans,
+               (forall sx : mstate ctx X, sort_transitions ctx X sc sel sx = (sx, inl ts)) /\
+               trans_blocks ctx X exec_code eval_code emit sc cfg (step_event ev ts) s2 ts steps s3 /\
+               atomic_shape ts steps)).
+Proof. exact C03_atomic. Qed.
+Print Assumptions C03_atomic_thm.
+
+(* the very first step enters the root and stabilises *)
+Theorem C03_atomic_first_thm :
+  forall (ctx X : Type) (exec_code : call ctx -> ctx -> option (ctx * list event))
+           (eval_code : call ctx -> ctx -> option bool) (emit : Z -> meta -> X -> X * option err) 
+           (sc : chart) (fuel : nat) (now : Z) (s s' : mstate ctx X) (t : Z) (steps : list microstep),
+         i_initialized (m_i s) = false ->
+         execute_once ctx X exec_code eval_code emit sc fuel now s = (s', inl (Some (t, steps))) ->
+         exists (r : name) (s2 s1 : mstate ctx X) (a : microstep) (stab : list microstep) 
+         (s3 : mstate ctx X),
+           root sc = Some r /\
+           i_initialized (m_i s2) = true /\
+           i_config (m_i s2) = i_config (m_i s) /\
+           apply_step ctx X exec_code eval_code emit sc
+             {| ms_event := None; ms_trans := None; ms_entered := [r]; ms_exited := []; ms_sent := [] |} s2 =
+           (s1, inl a) /\
+           stab_run ctx X exec_code eval_code emit sc s1 stab s3 /\
+           steps = a :: stab /\
+           ms_trans a = None /\
+           ms_entered a = [r] /\
+           ms_exited a = [] /\
+           Forall (fun m : microstep => ms_trans m = None /\ ms_event m = None) stab /\
+           m_i s' = m_i s3 /\ create_stabilization_step ctx sc (m_i s') = None.
+Proof. exact C03_atomic_first. Qed.
+Print Assumptions C03_atomic_first_thm.
+
+(* ORDER OF TRANSITIONS. sort_transitions returns its input sorted by source depth descending, then source name ascending; sources are pairwise different *)
+Theorem C03_transition_order_thm :
+  forall (ctx X : Type) (sc : chart) (ts : list itrans) (s s' : mstate ctx X) (ts' : list itrans),
+         sort_transitions ctx X sc ts s = (s', inl ts') ->
+         Permutation.Permutation ts' ts /\
+         Sorted.StronglySorted (fun a b : itrans => trans_order_leb sc a b = true) ts' /\
+         Sorted.Sorted (fun a b : itrans => trans_order_leb sc a b = true) ts' /\
+         NoDup (map (fun it : itrans => t_source (snd it)) ts') /\
+         Sorted.StronglySorted (src_before sc) ts' /\
+         (forall (l1 : list itrans) (a : itrans) (l2 : list itrans) (b : itrans) (l3 : list itrans),
+          ts' = (l1 ++ a :: l2 ++ b :: l3)%list -> t_source (snd a) <> t_source (snd b) /\ src_before sc a b).
+Proof. exact C03_transition_order. Qed.
+Print Assumptions C03_transition_order_thm.
+
+(* EXIT ORDER. The exited states of a transition are exactly the active states in the subtree of the child of the LCA on the source side, each once, every state after all its active descendants (innermost first), states of equal depth in name order, that child last *)
+Theorem C03_exit_order_thm :
+  forall sc : chart,
+         (forall n : name, parent_for sc n <> Some "") ->
+         (forall a b : name, In b (ancestors_for sc a) -> (depth_for sc b < depth_for sc a)%Z) ->
+         (forall c p : name, In c (children_for sc p) <-> parent_for sc c = Some p) ->
+         (forall p : name, NoDup (children_for sc p)) ->
+         (forall a d : name, In a (ancestors_for sc d) -> In d (descendants_for sc a)) ->
+         forall (cfg : list name) (ev : option event) (it : nat * transition) (tgt : name),
+         t_target (snd it) = Some tgt ->
+         let lca := least_common_ancestor sc (t_source (snd it)) tgt in
+         let lbl := last_before lca (ancestors_for sc (t_source (snd it))) (t_source (snd it)) in
+         let exited := ms_exited (create_step sc cfg ev it) in
+         C02Proofs.under sc lbl (t_source (snd it)) /\
+         parent_for sc lbl = lca /\
+         (forall x : name, In x exited <-> In x cfg /\ C02Proofs.under sc lbl x) /\
+         NoDup exited /\
+         Sorted.StronglySorted (fun a b : name => exit_order_leb sc a b = true) exited /\
+         (forall (l1 : list name) (x : name) (l2 : list name) (y : name),
+          exited = (l1 ++ x :: l2)%list -> In y exited -> In x (ancestors_for sc y) -> In y l1) /\
+         (forall (l1 : list name) (x : name) (l2 : list name) (y : name) (l3 : list name),
+          exited = (l1 ++ x :: l2 ++ y :: l3)%list -> depth_for sc x = depth_for sc y -> str_ltb x y = true) /\
+         (In lbl cfg -> exists l : list name, exited = (l ++ [lbl])%list).
+Proof. exact C03_exit_order. Qed.
+Print Assumptions C03_exit_order_thm.
+
+(* ENTRY ORDER. The entered states are the path from just below the LCA down to the target, every state immediately after its parent (outermost first) *)
+Theorem C03_entry_order_thm :
+  forall sc : chart,
+         (forall n : name, parent_for sc n <> Some "") ->
+         (forall a b : name, In b (ancestors_for sc a) -> (depth_for sc b < depth_for sc a)%Z) ->
+         forall (cfg : list name) (ev : option event) (it : nat * transition) (tgt : name),
+         t_target (snd it) = Some tgt ->
+         let lca := least_common_ancestor sc (t_source (snd it)) tgt in
+         let entered := ms_entered (create_step sc cfg ev it) in
+         is_path sc lca entered /\
+         entered <> [] /\
+         last entered tgt = tgt /\
+         (forall x : name, In x entered <-> C02Proofs.under sc x tgt /\ C02Proofs.below sc lca x) /\
+         NoDup entered /\
+         (forall (l1 : list name) (x : name) (l2 : list name),
+          entered = (l1 ++ x :: l2)%list ->
+          l1 = [] /\ parent_for sc x = lca \/
+          (exists (l1' : list name) (p : name), l1 = (l1' ++ [p])%list /\ parent_for sc x = Some p)) /\
+         (forall (l1 : list name) (x : name) (l2 : list name) (p : name),
+          entered = (l1 ++ x :: l2)%list -> parent_for sc x = Some p -> In p entered -> In p l1).
+Proof. exact C03_entry_order. Qed.
+Print Assumptions C03_entry_order_thm.
+
+(* default entry: initial child of a compound leaf; the missing children of an active orthogonal state in name order; for a history state the remembered states by (depth, name), parents first; a final child of the root ends the run *)
+Theorem C03_entry_order_stab_thm :
+  forall (ctx : Type) (sc : chart),
+         (forall n : name, parent_for sc n <> Some "") ->
+         (forall a b : name, In b (ancestors_for sc a) -> (depth_for sc b < depth_for sc a)%Z) ->
+         (forall c p : name, In c (children_for sc p) <-> parent_for sc c = Some p) ->
+         forall (i : istate ctx) (step : microstep),
+         create_stabilization_step ctx sc i = Some (inl step) ->
+         ms_trans step = None /\
+         ms_event step = None /\
+         ((exists (n : name) (st : state) (i0 : name),
+             C02Proofs.is_leaf sc (i_config i) n /\
+             state_for sc n = Some st /\
+             s_kind st = KCompound /\
+             truthy (s_initial st) = Some i0 /\ ms_entered step = [i0] /\ ms_exited step = []) \/
+          (exists (n : name) (st : state),
+             In n (i_config i) /\
+             state_for sc n = Some st /\
+             s_kind st = KOrthogonal /\
+             ms_entered step =
+             sort_names (filter (fun ch : name => negb (mem ch (i_config i))) (children_for sc n)) /\
+             ms_exited step = [] /\
+             Sorted.StronglySorted (fun a b : string => str_leb a b = true) (ms_entered step) /\
+             (forall c : name,
+              In c (ms_entered step) -> parent_for sc c = Some n /\ depth_for sc c = (depth_for sc n + 1)%Z)) \/
+          (exists (h : name) (st : state),
+             C02Proofs.is_leaf sc (i_config i) h /\
+             state_for sc h = Some st /\
+             is_history (s_kind st) = true /\
+             ms_exited step = [h] /\
+             ((exists l : list name,
+                 lookup h (i_memory i) = Some l /\ ms_entered step = sort (enter_order_leb sc) l) \/
+              lookup h (i_memory i) = None /\ (exists m : name, s_memory st = Some m /\ ms_entered step = [m])) /\
+             Sorted.StronglySorted (fun a b : name => enter_order_leb sc a b = true) (ms_entered step) /\
+             (forall (l1 : list name) (a : name) (l2 : list name) (b : name),
+              ms_entered step = (l1 ++ a :: l2)%list ->
+              In b (ancestors_for sc a) -> In b (ms_entered step) -> In b l1)) \/
+          (exists (f : name) (st : state) (r : name),
+             C02Proofs.is_leaf sc (i_config i) f /\
+             state_for sc f = Some st /\
+             s_kind st = KFinal /\
+             root sc = Some r /\ parent_for sc f = Some r /\ ms_exited step = [f; r] /\ ms_entered step = [])).
+Proof. exact C03_entry_order_stab. Qed.
+Print Assumptions C03_entry_order_stab_thm.
 
 (* TRACE TRUTH. The code fragments executed during an execute_once that returns a macro step are, in order, exactly: for each returned micro step the exit code of its exited states, the action of its transition, the entry code of its entered states; and the events they sent are exactly, in order, the sent-event lists of the micro steps *)
 Theorem C03_trace_truth_thm :
@@ -13,7 +177,7 @@ Theorem C03_trace_truth_thm :
            (sc : chart) (fuel : nat) (now : Z) (s s' : mstate ctx X) (t : Z) (steps : list microstep),
          execute_once ctx X exec_code eval_code emit sc fuel now s = (s', inl (Some (t, steps))) ->
          exists new : list (obs ctx),
-           m_tr s' = new ++ m_tr s /\
+           m_tr s' = (new ++ m_tr s)%list /\
            execs ctx (rev new) = flat_map (micro_execs sc) steps /\
            sents ctx (rev new) = concat (map ms_sent steps).
 Proof. exact C03_trace_truth. Qed.
@@ -29,7 +193,7 @@ Theorem C03_sent_truth_thm :
          ms_trans a = ms_trans step /\
          ms_entered a = ms_entered step /\
          ms_exited a = ms_exited step /\
-         (exists new : list (obs ctx), m_tr s' = new ++ m_tr s /\ ms_sent a = sents ctx (rev new)).
+         (exists new : list (obs ctx), m_tr s' = (new ++ m_tr s)%list /\ ms_sent a = sents ctx (rev new)).
 Proof. exact C03_sent_truth. Qed.
 Print Assumptions C03_sent_truth_thm.
 
